@@ -99,6 +99,11 @@ def rule_hash_eq(ctx: Ctx) -> RuleResult:
     hashed = [ast.unparse(a) for n in ast.walk(hs.node) if isinstance(n, ast.Call) and isinstance(n.func, ast.Name) and n.func.id == "hash" for a in ast.walk(n) if isinstance(a, ast.Attribute) and "value" in a.attr]
     if not cmp_ok or not hashed:
         rr.add(finding("SIB", eq, eq.node, "__eq__ is not the plain comparison `self.__value == other._value` of the state that __hash__ hashes (a masked or transformed comparison makes specifications equal whose hashes differ)", construct="eq is not a plain comparison of the hashed state"))
+    # __eq__ accepts every AttrSpec instance (isinstance): the hash may not depend on the *dynamic* class
+    rr.inst("hash independent of the dynamic class", True)
+    if any(isinstance(n, ast.Attribute) and n.attr == "__class__" for n in ast.walk(hs.node)) or any(isinstance(n, ast.Call) and isinstance(n.func, ast.Name) and n.func.id == "type" for n in ast.walk(hs.node)):
+        if any(isinstance(n, ast.Call) and isinstance(n.func, ast.Name) and n.func.id == "isinstance" for n in ast.walk(eq.node)):
+            rr.add(finding("SIB", hs, hs.node, "__hash__ mixes in the dynamic class (self.__class__ / type(self)) while __eq__ accepts any AttrSpec instance with the same value: an instance of a subclass equals a plain AttrSpec but hashes differently", construct="hash depends on the dynamic class, eq does not"))
     rr.inst("eq type test", True)
     if not any(isinstance(n, ast.Call) and isinstance(n.func, ast.Name) and n.func.id == "isinstance" for n in ast.walk(eq.node)):
         rr.add(finding("SIB", eq, eq.node, "__eq__ no longer restricts the comparison to AttrSpec instances", construct="eq without isinstance"))
@@ -366,6 +371,7 @@ from ..mutants import Mut  # noqa: E402
 
 _C = "urwid/display/common.py"
 MUTANTS = [
+    Mut("hash-includes-dynamic-class", "urwid/display/common.py", "AttrSpec.__hash__", "return hash((AttrSpec, self.__value))", "return hash((self.__class__, self.__value))", "SIB|display.common.AttrSpec.__hash__"),
     Mut("high-colour-number-by-int", "urwid/display/common.py", "_parse_color_256", "            num = _int_digits(desc[1:], 10)", "            num = int(desc[1:], 10)", "TAINT|display.common._parse_color_256"),
     Mut("fold-any-seven-characters", "urwid/display/common.py", "_parse_color_88", "    if len(desc) == 7 and desc.startswith(\"#\"):", "    if len(desc) == 7:", "TAINT|display.common._parse_color_88"),
     Mut("rgb-decode-by-whole-spec-depth", "urwid/display/common.py", "AttrSpec.get_rgb_values", "        elif self.foreground_true:", "        elif self.colors == 2**24:", "GUARD|display.common.AttrSpec.get_rgb_values"),
